@@ -37,6 +37,7 @@ mod ckpt_recovery;
 mod compaction;
 mod sync_exchange;
 mod gossip_loop;
+mod manifest_race;
 use std::panic;
 
 pub struct Found {
@@ -111,6 +112,7 @@ fn main() {
         "compaction" => compaction::search(&pid, &oid, seed),
         "sync_exchange" => sync_exchange::search(&pid, &oid, seed),
         "gossip_loop" => gossip_loop::search(&pid, &oid, seed),
+        "manifest_race" => manifest_race::search(&pid, &oid, seed),
         _ => None,
     };
     match res {
